@@ -81,6 +81,8 @@ type Engine struct {
 	propFilter string
 	stats      map[string]int
 	curClause  *Clause
+	discSorts  map[string]*Sort
+	discExtra  map[string]bool
 }
 
 type pathEnd struct{ reason string }
@@ -486,6 +488,11 @@ func (e *Engine) atLoopHeader(st *State, fr *Frame, li *loopInfo, from *ssa.Basi
 		}
 		return
 	}
+	if _, disc := st.ghost["$discover/"+key]; disc && back {
+		// write-discovery run came around
+		e.discUnion(st)
+		panic(pathEnd{"discovery came around"})
+	}
 	ctx := e.frameCtx(st, fr, li.header)
 	if back && st.ghost["$inloop/"+key].L != nil {
 		// back edge: invariant preserved + variant decreased
@@ -536,6 +543,12 @@ func (e *Engine) atLoopHeader(st *State, fr *Frame, li *loopInfo, from *ssa.Basi
 	} else {
 		for _, k := range written {
 			old := st.mem[k]
+			if old == nil {
+				if srt, ok := e.discSorts[k]; ok {
+					st.mem[k] = FreshVar("Hl|"+k, srt)
+				}
+				continue
+			}
 			st.mem[k] = FreshVar("Hl|"+k, old.S)
 		}
 	}
@@ -576,15 +589,41 @@ func (e *Engine) discoverLoopWrites(st *State, li *loopInfo, key string) []strin
 		e.runDiscover(s, li, key)
 		for k := range s.written {
 			union[k] = true
+			if a, ok := s.mem[k]; ok {
+				if e.discSorts == nil {
+					e.discSorts = map[string]*Sort{}
+				}
+				e.discSorts[k] = a.S
+			}
 		}
 	}
 	e.work, e.cur.discover, e.cur.paths = saveWork, saveDisc, savePaths
+	for k := range e.discExtra {
+		union[k] = true
+	}
+	e.discExtra = nil
 	var out []string
 	for k := range union {
 		out = append(out, k)
 	}
 	sort.Strings(out)
 	return out
+}
+
+// discUnion remembers the cells written by a discovery path that ends inside jump().
+func (e *Engine) discUnion(st *State) {
+	if e.discExtra == nil {
+		e.discExtra = map[string]bool{}
+	}
+	for k := range st.written {
+		e.discExtra[k] = true
+		if a, ok := st.mem[k]; ok {
+			if e.discSorts == nil {
+				e.discSorts = map[string]*Sort{}
+			}
+			e.discSorts[k] = a.S
+		}
+	}
 }
 
 func (e *Engine) runDiscover(st *State, li *loopInfo, key string) {
@@ -1251,7 +1290,8 @@ func (e *Engine) ifaceEq(st *State, a, b Val) *Term {
 		st.assume(Implies(And(tagEq, Eq(a.iPl(), b.iPl())), r))
 		return r
 	}
-	res := Eq(ta, BVConst(0, 32)) // both nil (tags equal and zero)
+	// both nil, or the very same dynamic value (same box / same pointer)
+	res := Or(Eq(ta, BVConst(0, 32)), Eq(a.iPl(), b.iPl()))
 	for _, c := range cands {
 		if c == nil {
 			continue
@@ -1724,10 +1764,10 @@ func (e *Engine) next(st *State, fr *Frame, x *ssa.Next) {
 	st.storeLeaf(cntKey, []*Term{itv.t()}, Ite(ok, Add(cnt, BVConst(1, 64)), cnt))
 	tp := x.Type().(*types.Tuple)
 	L := []*Term{ok}
-	if len(leafSorts(tp.At(1).Type())) > 0 && !isInvalid(tp.At(1).Type()) {
+	if !isInvalid(tp.At(1).Type()) {
 		L = append(L, k.L...)
 	}
-	if len(leafSorts(tp.At(2).Type())) > 0 && !isInvalid(tp.At(2).Type()) {
+	if !isInvalid(tp.At(2).Type()) {
 		L = append(L, v.L...)
 	}
 	fr.regs[x] = Val{x.Type(), L}
